@@ -45,6 +45,7 @@ type Engine struct {
 	Workers  int
 	Verbose  bool
 
+	Intercepts map[string]string // callee name -> harness function (same package as the running harness) executed instead
 	models     map[string]modelFn
 	symModels  map[string]modelFn // SMT models of string functions for genuinely symbolic arguments
 	noopPrefix []string
@@ -90,7 +91,7 @@ func Load(cfg Config) (*Engine, error) {
 	prog.Build()
 	e := &Engine{Prog: prog, Pkgs: pkgs, RunInit: map[string]bool{}, KnownIDs: map[string]bool{},
 		Solver: "z3", TimeoutMs: 180000, Workers: 16,
-		models: map[string]modelFn{}, symModels: map[string]modelFn{}, execFns: map[*ssa.Function]int{}, modelFns: map[string]int{},
+		Intercepts: map[string]string{}, models: map[string]modelFn{}, symModels: map[string]modelFn{}, execFns: map[*ssa.Function]int{}, modelFns: map[string]int{},
 		initStores: map[*ssa.Global]bool{}}
 	registerModels(e)
 	// globals with an initialiser
@@ -618,9 +619,10 @@ var globalModels = map[string]func(e *Engine) value{}
 
 // funcInfo caches per-function data shared by all paths: value numbering and the model (if any).
 type funcInfo struct {
-	idx   map[ssa.Value]int
-	n     int
-	model modelFn
+	idx       map[ssa.Value]int
+	n         int
+	model     modelFn
+	intercept string
 }
 
 func (e *Engine) funcInfo(fn *ssa.Function) *funcInfo {
@@ -652,6 +654,9 @@ func (e *Engine) funcInfo(fn *ssa.Function) *funcInfo {
 	}
 	if fn.Parent() == nil {
 		info.model = e.modelFor(fn)
+		if len(e.Intercepts) > 0 {
+			info.intercept = e.Intercepts[fnKey(fn)]
+		}
 	}
 	v, _ := e.fnInfos.LoadOrStore(fn, info)
 	return v.(*funcInfo)
